@@ -1925,7 +1925,21 @@ def claim_eq(name, a, b, timeout_ms=None):
                               len(lhs) + len(rhs))
         ctx.claims.append(res)
         return res
-    return claim(name, SymBool(Cond.poly(p, "==")), timeout_ms=timeout_ms)
+    res = claim(name, SymBool(Cond.poly(p, "==")), timeout_ms=timeout_ms)
+    if res.verdict == "violated" and res.detail == "":
+        # The solver's first witness may differ from the oracle by less than float64 rounding can resolve (it then cannot
+        # be confirmed on the real code).  Ask for a witness where the two sides differ by more than 1e-5 of their size;
+        # if there is none, the first witness stays and the replay decides.
+        try:
+            K = 10 ** 10
+            sig = _lc(d * d * K > a * a + b * b)
+            r2, m2 = ctx.solve(ctx.pc + [sig], timeout_ms=min(timeout_ms or ctx.solver_timeout_ms, 8000), is_claim=True)
+            if r2 == "sat":
+                res.witness = _witness(ctx, m2)
+                res.detail = "witness with a relative difference above 1e-5"
+        except Exception:  # noqa: BLE001 - refinement only; the verdict does not depend on it
+            pass
+    return res
 
 
 def claim_all_eq(name, xs, ys, timeout_ms=None):
